@@ -37,7 +37,13 @@ import (
 	"verifharness/hc"
 )
 
-func main() { hc.Main(run) }
+func main() {
+	if os.Getenv("C19_INPROC_SPEC") != "" {
+		inprocChild() // child mode of the in-process function fuzzer (inproc.go)
+		return
+	}
+	hc.Main(run)
+}
 
 func must(err error) {
 	if err != nil {
@@ -276,14 +282,17 @@ func short(fn string) string {
 // firstOwnFrame: the innermost frame of csvq or its own libraries below the runtime's panic machinery
 // (frames are listed innermost first; standard-library frames such as strings.Repeat are skipped).
 func firstOwnFrame(frames []string) string {
+	// skip the recovering closure(s) and the runtime's panic machinery that follows them (one contiguous block)
 	start := 0
-	for i, f := range frames {
-		if strings.HasPrefix(f, "runtime.") {
-			start = i + 1
+	for start < len(frames) && start < 4 && !strings.HasPrefix(frames[start], "runtime.") {
+		start++
+	}
+	if start < len(frames) && strings.HasPrefix(frames[start], "runtime.") {
+		for start < len(frames) && strings.HasPrefix(frames[start], "runtime.") {
+			start++
 		}
-		if i > 6 {
-			break
-		}
+	} else {
+		start = 0
 	}
 	if start >= len(frames) {
 		start = 0
@@ -786,8 +795,51 @@ func run(seed int64, n int, dir string, _ []string) {
 			budget = roundSize
 		}
 		var jobs []*job
+		{
+			// the in-process function fuzzer first: its candidates are confirmed on the binary like any other job
+			// (first round: exhaustive singles / pairs / triples + samples; later rounds: other samples only)
+			ti := time.Now()
+			ip := runInproc(seed, workers, done/roundSize)
+			ncalls := 0
+			for name, c := range ip.calls {
+				o.Stats["inproc:"+name] += c
+				ncalls += c
+			}
+			for i := 0; i < ncalls; i++ {
+				o.Eval()
+			}
+			for a, c := range ip.arity {
+				o.Stats["inproc_arity:"+a] += c
+			}
+			for a, c := range ip.outcomes {
+				o.Stats["inproc_outcome:"+a] += c
+			}
+			for _, sg := range ip.sigs {
+				o.NonTrivial(sg)
+			}
+			o.Stats["inproc_calls"] += ncalls
+			o.Stats["inproc_candidates"] += len(ip.cands)
+			o.Stats["inproc_child_restarts"] += ip.restarts
+			o.Stats["observed:inproc_out_of_memory_under_the_harness_limit(not a law)"] += ip.oom
+			for _, a := range ip.abandoned {
+				o.Count("inproc_abandoned:" + a)
+			}
+			for _, c := range ip.cands {
+				o.Count("inproc_candidate_kind:" + c.what)
+				fr := c.frame
+				if fr == "" {
+					fr = "-"
+				}
+				o.Count("inproc_candidate_at:" + c.t.Name + "@" + fr)
+			}
+			cj := ip.confirmJobs()
+			fmt.Fprintf(os.Stderr, "c19: in-process: %d calls of %d functions in %.1fs, %d candidates, %d confirmation jobs, %d child restarts\n",
+				ncalls, len(ip.calls), time.Since(ti).Seconds(), len(ip.cands), len(cj), ip.restarts)
+			jobs = append(jobs, cj...)
+		}
 		if done == 0 {
 			jobs = append(jobs, corpusJobs()...)
+			jobs = append(jobs, jsonPathJobs()...)
 			jobs = append(jobs, fsJobs(g)...)
 		}
 		jobs = append(jobs, stmtJobs(g, budget*18/100)...)
@@ -832,6 +884,13 @@ func run(seed int64, n int, dir string, _ []string) {
 					laws = append(laws, "nonrectangular:"+why)
 				}
 				o.Count("inprocess_rect_probe")
+			}
+			if j.Group == "inproc" {
+				if len(laws) > 0 {
+					o.Count("inproc_confirmed")
+				} else {
+					o.Count("inproc_unconfirmed:" + strings.TrimPrefix(j.Tags[0], "inproc_candidate:"))
+				}
 			}
 			o.NonTrivial(j.Group + ":" + strings.Join(sigTags(j.Tags), ",") + fmt.Sprintf(":%d", r.rc))
 			for _, l := range laws {
